@@ -61,6 +61,9 @@ checks["C16"] = dict(level="exploration", text="Shape.tla describes the universe
 checks["C18"] = dict(level="exploration", text="The programs of the Exec specification family (hand-written core scenarios + seeded samples: parallel deps, nested calls, deduplicated tasks, for-loops, defers) are executed by a -race build of the harness under seeded release orders of the blocked probes and GOMAXPROCS 2/4/16, plus fixed workloads for features outside the Exec model (matrix refs from parallel deps, dynamic variables, prefixed/group writers, one file included twice, listing while running). The Go race detector is the oracle; a report counts when both access stacks have frames of Task's own packages. The specification supplies workloads and schedules; it does not model memory accesses.",
    note="Trusted: the Go race detector (it only sees executed interleavings). Exploration, not exhaustive.", ref="DESIGN.md 5 (C18), 8", tech="spec-generated concurrent workloads and schedules (Exec family) run under the Go race detector", engine="race")
 
+checks["C11"] = dict(level="model_checking", text="Indep.tla fixes a library of tasks containing the sharing hazards (the same sh: text in tasks with different dir/env, one task called with different variables, matrix refs and for-loops over call variables) and defines Lines(call) as a function of the call alone. TLC enumerates every scenario: a target call after (sequential cmds) or next to (parallel deps) every prefix of at most two other calls. The driver runs each scenario with the real Executor and compares the target's lines with the specification and with the same call run alone.",
+   note=CASES_NOTE + " Parallel scenarios use Go's own scheduling (not schedule-controlled).", ref="DESIGN.md 5 (C11)", tech="TLA+ cases specification (metamorphic: prefix;T vs T alone) enumerated by TLC, replayed through the real Executor", engine="load")
+
 ALL = ["C%02d" % i for i in range(1, 21)]
 pending = {p: "check not built yet in this round (planned, see DESIGN.md section 5)" for p in ALL if p not in checks}
 
@@ -76,7 +79,7 @@ m = {
    "kind_free_text": "TLA+ executor model + property monitor; TLC model checking, trace validation, schedule-controlled replay into the real Executor"},
   {"name": "fp", "path": "specs/fp + harness/fpfam", "serves_properties": ["C04","C05","C12"],
    "kind_free_text": "TLA+ model of the up-to-date state machine + monitor; TLC model checking, history replay against the task CLI, TLC evaluation of observed histories"},
-  {"name": "load", "path": "specs/load + harness/loadfam", "serves_properties": ["C08","C09","C10","C15"],
+  {"name": "load", "path": "specs/load + harness/loadfam", "serves_properties": ["C08","C09","C10","C11","C15"],
    "kind_free_text": "TLA+ functional specifications (cases models) enumerated by TLC, compared with the real loader/resolver"},
   {"name": "cli", "path": "specs/cli + harness/clifam", "serves_properties": ["C19"], "kind_free_text": "TLA+ cases specification + CLI driver with argv-recording helper"},
   {"name": "out", "path": "specs/out + harness/outfam", "serves_properties": ["C17"], "kind_free_text": "TLA+ model of group/prefixed writers; blocking-sink replay"},
